@@ -18,7 +18,7 @@ ID = "C09"
 SHARDS = {"quick": 8, "thorough": 16}
 BUDGET = {"quick": 300, "thorough": 1800}
 RULE = ("frames of 1..50 rows x 1..8 columns; unique column names from "
-        "[A-Za-z0-9 _-] without leading / trailing blanks; float (12 decades, "
+        "[A-Za-z0-9 _-] incl. blanks at either end; float (12 decades, "
         "negative), integer (full int64) and text columns (commas, double quotes, "
         "colons, hashes, inner spaces); comment dictionaries with keys "
         "[a-z0-9_]{1,25} and single-line, trimmed values containing colons / hashes "
@@ -70,9 +70,13 @@ def rand_name(rng, used):
         if not s or s in used:
             continue
         # names made of digits / dashes only are legal but would make pandas
-        # treat nothing differently - keep them; only blanks at the ends are out
-        if s[0] == " " or s[-1] == " ":
-            continue
+        # treat nothing differently - keep them
+        if rng.random() < 0.12:
+            # a blank is a legal character of a name at its ends too (fixed-width
+            # labels, names cut out of a table header)
+            s = [" " + s, s + " ", " " + s + " ", "  " + s][int(rng.integers(0, 4))]
+            if s in used:
+                continue
         used.add(s)
         return s
 
